@@ -201,7 +201,12 @@ func printPrec(t *rapid.T, n *Node, prec int) string {
 				if rapid.Bool().Draw(t, "andword") {
 					sep = " AND "
 				} else {
-					sep = rapid.SampledFrom([]string{" ", "  ", "\t"}).Draw(t, "juxta")
+					sep = rapid.SampledFrom([]string{" ", "  ", "\t", " ", " ", "\u00a0", "\u2003", " \u0085"}).Draw(t, "juxta")
+					if strings.HasSuffix(parts[i-1], "/") && sep[0] >= 0x80 {
+						// the documentation requires "space or an operator" after a regexp;
+						// only ASCII space is certain to qualify
+						sep = " "
+					}
 				}
 				sb.WriteString(sep)
 			}
